@@ -63,4 +63,11 @@ CONFIG = {
         "quick": {"parts": [part("TestC08", 16, 40)]},
         "thorough": {"parts": [part("TestC08", 32, 500, timeout=3000)]},
     },
+    "C11": {
+        "level": "translation_validation",
+        "rule": "per generated program (SQL query from the full grammar: field subsets, derived fields, WHERE, IN- and FROM-subqueries, GROUP BY dims/_/*, period, stride, CROSSTAB with dims, HAVING, ORDER BY, LIMIT) and per generated split of a single table's rows over N in 1..6 partitions that respects the table's partition keys (hash with a generated salt, or an explicit generated assignment of key tuples to partitions): the plan a passthrough leader produces for the cluster (whole-query pushdown, or partition pre-aggregation + leader-side group/having/order/limit) is executed against N real partition databases through harness-registered query handlers that do exactly what a follower does, and its rows are compared with the local plan of a standalone database holding the union. Non-trivial: the query is not a bare SELECT * and the data occupy >= 2 partitions. programs = cases (each with 1-4 queries); disagreements_checked = queries compared.",
+        "assumptions": ["six listed findings of the cluster planner are excluded by construction and probed: textual GROUP BY rewrite, OFFSET pushed down and re-applied, GROUP BY _ with CROSSTAB (bytemap prefix match), CROSSTAB without explicit dims (leader panic), SHIFT applied twice, pushdown over tables whose keys are split across partitions", "clocks of leader and partitions pinned to the newest generated timestamp", "LIMIT results compared by count / ORDER BY key values"],
+        "quick": {"parts": [part("TestC11", 16, 25)]},
+        "thorough": {"parts": [part("TestC11", 32, 400, timeout=3000)]},
+    },
 }
